@@ -13,6 +13,7 @@ DOMAINS = {
     "intra_period_length": [-1, 0, 1, 2, 3, 7, 8, 15, 16],
     "intra_refresh_type": [1, 2],
     "super_block_size": [64, 128],
+    "profile": [0, 1, 2],
     "encoder_bit_depth": [8, 10],
     "is_16bit_pipeline": [0, 1],
     "qp": [0, 20, 50, 63],
